@@ -101,6 +101,12 @@ func (p *State) Class(classHash *felt.Felt) (*core.DeclaredClassDefinition, erro
 func (p *State) CompiledClassHash(
 	classHash *felt.SierraClassHash,
 ) (felt.CasmClassHash, error) {
+	// A class migrated to its blake2s CASM hash inside the pending diff (declared before it, in the
+	// committed state or earlier in the same diff): like the committed state after the migration,
+	// the current compiled class hash is the migrated (V2) one.
+	if casmHash, found := p.stateDiff.MigratedClasses[*classHash]; found {
+		return casmHash, nil
+	}
 	classHashFelt := felt.Felt(*classHash)
 	if casmHash, found := p.stateDiff.DeclaredV1Classes[classHashFelt]; found {
 		return felt.CasmClassHash(*casmHash), nil
